@@ -71,7 +71,7 @@ Fixpoint canon_val (v : val) : val :=
 
 (* events as the harness can see them: context creation/cancellation are not directly visible *)
 Definition visible (e : uev) : bool :=
-  match e with UCtxCancel | UFrameBegin | UFrameEnd => false | _ => true end.
+  match e with UCtxCancel | UFrameBegin | UFrameEnd | UCleanupBegin | UCleanupEnd => false | _ => true end.
 Definition uev_eqb (a b : uev) : bool :=
   match a, b with
   | UDraw x, UDraw y => val_eqb (canon_val x) (canon_val y)
